@@ -26,7 +26,7 @@ Your task: produce ONE change to the non-test source code of f1 such that it:
   2. still compiles, and the ENTIRE existing test suite still passes with it;
   3. is realistic — the kind of mistake a maintainer could make in a refactor, optimisation or 'simplification' (wrong comparison, reordered steps, a missing lock/atomic, an off-by-one, state not reset, a value read at the wrong moment, a unit mix-up, two sites that each look fine alone...). Not an obfuscated backdoor, no special-casing of magic values.
   4. needs something SPECIFIC to manifest: a particular interleaving of goroutines, a cancellation or failure at a particular point, a multi-step sequence of operations, an unusual-but-legal input or configuration, a boundary value, or two cooperating sites. It must NOT be exposed immediately by ordinary use.
-Candidate areas (the code this property is anchored in): {hint}.
+Candidate areas (the code this property is anchored in): {hint}.{outside}
 Changes of the following kinds have ALREADY been tried by others - do something different, at a different site or of a different nature:
 {prev}
 
@@ -55,8 +55,16 @@ def main():
                 prev.append("  - " + (m.get("summary") or "")[:320].replace("\n", " "))
         hint = ", ".join(pr["anchors"]["files"]) + "; mechanisms: " + "; ".join(
             "%s (%s)" % (m["name"], m["where"]) for m in pr["anchors"].get("mechanism", []))
+        outside = ""
+        if os.environ.get("SEED_OUTSIDE"):
+            outside = (" THIS ROUND: put your change OUTSIDE those files - in a layer between the user and that code (command-line "
+                       "flag handling in internal/run/run_cmd.go and pkg/f1, the trigger builders and their flag/option parsing "
+                       "under internal/trigger/*, the config-file parser and stage runner, internal/options, internal/envsettings, "
+                       "the wiring in internal/run/test_runner.go, internal/run/result.go, internal/ui and internal/run/views, "
+                       "pkg/f1/scenarios, ...) - such that the user-visible property above still breaks for a user of the f1 "
+                       "binary or of the pkg/f1 API.")
         open(os.path.join(root, "prompt-%s.txt" % P), "w").write(T.format(
-            root=root, P=P, V=variant, title=pr["title"], statement=pr["statement"], hint=hint, prev="\n".join(prev)))
+            root=root, P=P, V=variant, outside=outside, title=pr["title"], statement=pr["statement"], hint=hint, prev="\n".join(prev)))
         os.makedirs(os.path.join(root, "out-%s" % P, variant), exist_ok=True)
         subprocess.run("git -C /repo worktree add --detach %s/wt-%s HEAD" % (root, P), shell=True,
                        stdout=subprocess.DEVNULL, stderr=subprocess.DEVNULL)
